@@ -298,6 +298,26 @@ def insertRangeFwd (cfg : Cfg) (c pos : Nat) (srcs : List (Src α)) : M α Nat :
     (match srcs with | s :: _ => appendElement cfg c s | [] => pure pos)
   else appendRangeFwd cfg c false srcs
 
+/-- the in-object buffer of a temporary container living on the stack: a temporary block of `n` raw slots -/
+def allocTempN (n : Nat) : M α Nat := fun w =>
+  .ok w.ntmp { w with mem := upd w.mem w.ntmp (List.replicate n .raw), ntmp := w.ntmp + 2 }
+
+/-- header slot used for the function-local temporary container `small_vector_base tmp (…)` -/
+def scratch : Nat := 4
+
+/-- insert_range, input iterators, pos ≠ end (hpp:4084-4094): the single-pass range is first consumed into a temporary
+    container `tmp (first, last, alloc)` (default construction + append_range element by element; its storage is
+    released again if that throws), then its elements are MOVED in with insert_range_helper; `tmp` is destroyed on
+    every exit -/
+def insertRangeInputMid (cfg : Cfg) (c pos sid : Nat) (xs : List α) : M α Nat :=
+  getV c >>= fun v =>
+  (if v.N = 0 then pure nullBlk else allocTempN v.N) >>= fun tb =>
+  modV scratch (fun _ => { N := v.N, inl := tb, cap := v.N, size := 0, data := tb, alloc := v.alloc }) >>= fun _ =>
+  tryCatch (appendRangeInput cfg scratch false sid 0 xs >>= fun _ => pure ())
+    (fun e => wipe cfg scratch >>= fun _ => throwE e) >>= fun _ =>
+  getV scratch >>= fun tv =>
+  finally_ (insertRangeHelper cfg c pos (srcsMove tv.data 0 tv.size)) (wipe cfg scratch)
+
 /-! ### capacity -/
 /-- request_capacity (hpp:4341) -/
 def requestCapacity (cfg : Cfg) (c request : Nat) : M α Unit :=
